@@ -857,6 +857,7 @@ macro_rules! system {
                         }
                     }
 
+                    autoconvert! {
                     /// Fused multiply-add. Computes `(self * a) + b` with only one rounding error.
                     /// This produces a more accurate result with better performance than a separate
                     /// multiplication operation followed by an add.
@@ -888,9 +889,45 @@ macro_rules! system {
                         Quantity {
                             dimension: $crate::lib::marker::PhantomData,
                             units: $crate::lib::marker::PhantomData,
+                            value: self.value.mul_add(
+                                change_base::<Da, U, Ua, V>(&a.value),
+                                change_base::<
+                                    $quantities<$($crate::typenum::Sum<D::$symbol, Da::$symbol>),+>,
+                                    U, Ub, V>(&b.value)),
+                        }
+                    }}
+
+                    not_autoconvert! {
+                    /// Fused multiply-add. Computes `(self * a) + b` with only one rounding error.
+                    /// This produces a more accurate result with better performance than a separate
+                    /// multiplication operation followed by an add.
+                    ///
+                    /// ## Generic Parameters
+                    /// * `Da`: Dimension for parameter `a`.
+                    #[must_use = "method returns a new number and does not mutate the original value"]
+                    #[inline(always)]
+                    pub fn mul_add<Da>(
+                        self,
+                        a: Quantity<Da, U, V>,
+                        b: Quantity<$quantities<$($crate::typenum::Sum<D::$symbol, Da::$symbol>),+>, U, V>,
+                    ) -> Quantity<$quantities<$($crate::typenum::Sum<D::$symbol, Da::$symbol>),+>, U, V>
+                    where
+                        $(D::$symbol: $crate::lib::ops::Add<Da::$symbol>,
+                        <D::$symbol as $crate::lib::ops::Add<Da::$symbol>>::Output: $crate::typenum::Integer,)+
+                        D::Kind: $crate::marker::Mul,
+                        Da: Dimension + ?Sized,
+                        Da::Kind: $crate::marker::Mul,
+                    {
+                        #[allow(unused_imports)]
+                        use $crate::num_traits::MulAdd;
+
+                        // (self * a) + b
+                        Quantity {
+                            dimension: $crate::lib::marker::PhantomData,
+                            units: $crate::lib::marker::PhantomData,
                             value: self.value.mul_add(a.value, b.value),
                         }
-                    }
+                    }}
 
                     /// Raises a quantity to an integer power.
                     ///
